@@ -310,6 +310,10 @@ def _impl_bytes(case, top):
             out.append("T" if overlay._is_del_mark(w) else "F")
             # HDF5 round trip of the wrapped value, through both raw drivers
             res = []
+            if i % 32 == 31:
+                # IH5 group operations are linear in the number of children: start a fresh record
+                raw_ih5.close()
+                raw_ih5 = IH5Record(os.path.join(top, "raw-ih5-%d" % i), "w")
             for raw in (raw_h5, raw_ih5):
                 try:
                     raw.create_dataset("r%d" % i, data=w)
@@ -520,16 +524,20 @@ def gen_cases(ctx, scale=1.0):
         cases.append(dict(kind="bytes", full=not ctx.quick or i == 96, data=[b.hex() for b in one[i:i + step]]))
     for _ in range(int((4 if ctx.quick else 60) * scale)):
         cases.append(dict(kind="bytes", full=True, data=[rand_bytes(rng).hex() for _ in range(8)]))
-    for _ in range(int((40 if ctx.quick else 1500) * scale)):
+    for _ in range(int((40 if ctx.quick else 800) * scale)):
         cases.append(gen_hist(rng, cat))
     return cases
 
 
 def exhaustive_cases():
-    """all byte strings of length 2: wrap / marker test / HDF5 round trip through both raw drivers"""
+    """all byte strings of length 2: wrap / marker test / HDF5 round trip through both raw drivers;
+    pack_file for those beginning with 00, 7f, ff (32 per case: IH5 gets slow in large groups)"""
     cases = []
     for a in range(256):
-        cases.append(dict(kind="bytes", full=a in (0, 0x7f, 0xff), data=[bytes([a, b]).hex() for b in range(256)]))
+        cases.append(dict(kind="bytes", full=False, data=[bytes([a, b]).hex() for b in range(256)]))
+    for a in (0, 0x7f, 0xff):
+        for b0 in range(0, 256, 32):
+            cases.append(dict(kind="bytes", full=True, data=[bytes([a, b]).hex() for b in range(b0, b0 + 32)]))
     return cases
 
 
